@@ -182,6 +182,20 @@ func (r *run) step(st lib.Case) lib.Out {
 		}
 		r.ow[w] = wr
 		return lib.Sym("ok")
+	case "failobj":
+		// RawObjectWriter rejects the header after NewObject has run: the writer is abandoned, never closed
+		var wr io.WriteCloser
+		var err error
+		if st.Bool("badtype") {
+			wr, err = r.s.RawObjectWriter(plumbing.InvalidObject, 3)
+		} else {
+			wr, err = r.s.RawObjectWriter(universe[k].typ, -1)
+		}
+		if err == nil {
+			wr.Close()
+			return lib.Sym("ok")
+		}
+		return class(err)
 	case "closeobj":
 		if r.ow[w] == nil {
 			return lib.Err("badslot")
